@@ -331,7 +331,7 @@ fn judge_n(n: usize, levels: &[f64], seed: u64, l: &mut Local) {
 
 pub fn run(run: &Arc<Run>) {
     let seed = run.cfg.seed;
-    let nmax: usize = run.cfg.by(400, 3000);
+    let nmax: usize = run.cfg.by(400, 5000);
     let levels = level_grid(seed, run.cfg.by(4, 8));
     run.set_rule(format!(
         "exhaustive over 0 <= n <= {nmax}, 0 <= k <= n+1, {nl} levels (grid incl. dyadic levels and levels < 1/2) x 3 kinds, for ci, ci_wilson, ci_z_normal, Stats::new(n,k).ci; ratio and data front-ends (ci_true, ci_if, Stats::from_iter/extend/extend_if/add_*) on a rotating subset (all k for n <= 30..40); \
